@@ -59,12 +59,77 @@ def _is_legacy_cond(v, fields):
                       (want,)))
 
 
+MARKER = "_is_expr_dataclass"
+
+
+def _marker_owned(ctx, model, augment_fn):
+    """The generated __eq__/__hash__/__getstate__/__setstate__ tell a decorated
+    class from an undecorated (init-args) subclass of one by asking whether the
+    marker is in the class's *own* __dict__.  That works only if nothing but
+    the decorator puts it there: a store from __init_subclass__, a metaclass,
+    or a class body of an undecorated subclass makes such a subclass pass for a
+    dataclass node -- the attributes it adds drop out of equality, hashing and
+    the pickled state."""
+    nt = model.nodes
+    bad = []
+    n_sites = 0
+    for mod in model.repo.modules.values():
+        for n in ast.walk(mod.tree):
+            tgts = []
+            if isinstance(n, ast.Assign):
+                tgts = n.targets
+            elif isinstance(n, (ast.AnnAssign, ast.AugAssign)):
+                tgts = [n.target] if getattr(n, "value", None) is not None else []
+            for t in tgts:
+                if isinstance(t, ast.Attribute) and t.attr == MARKER:
+                    n_sites += 1
+                    inside = any(x is n for x in ast.walk(augment_fn))
+                    if not inside:
+                        bad.append((mod, n, "an attribute store outside the "
+                                    "decorator"))
+                elif isinstance(t, ast.Name) and t.id == MARKER:
+                    par = mod.parent(n)
+                    if isinstance(par, ast.ClassDef):
+                        ci = model.classes.get(f"{mod.name}:{par.name}")
+                        node = None
+                        if ci is not None:
+                            try:
+                                node = nt.get(ci.key)
+                            except Exception:
+                                node = None
+                        if node is not None and not node.decorated and \
+                                ci is not nt.expression:
+                            bad.append((mod, n, f"the class body of the "
+                                        f"undecorated node class {par.name}"))
+            if isinstance(n, ast.Call) and ast.unparse(n.func) in (
+                    "setattr", "type.__setattr__") and len(n.args) >= 2 and \
+                    isinstance(n.args[1], ast.Constant) and \
+                    n.args[1].value == MARKER:
+                n_sites += 1
+                if not any(x is n for x in ast.walk(augment_fn)):
+                    bad.append((mod, n, "a setattr outside the decorator"))
+    mod0, n0, why0 = bad[0] if bad else (None, None, None)
+    ctx.ob("O/template/marker-set-only-by-the-decorator", not bad,
+           mod0.loc(n0) if bad else model.repo.module(PRIM).loc(augment_fn),
+           f"'{MARKER}' enters a class __dict__ only through the decorator" if
+           not bad else
+           f"'{MARKER}' is also put into classes by {why0}: the generated "
+           "methods recognise an undecorated subclass of a dataclass node by "
+           "the marker being absent from its own __dict__, so such a subclass "
+           "now passes for a dataclass node and the constructor arguments it "
+           "adds are left out of ==, hash() and the pickled state")
+    if n_sites < 1:
+        raise AnalysisError(f"no store of {MARKER} found: the marker rule has "
+                            "lost its anchor")
+
+
 def check_template(ctx, model, prop, only=None):
     """Rules on the instantiated template.  *only*: restrict to a subset of
     generated functions ("eqhash" or "state")."""
     m = model.repo.module(PRIM)
     _, fn = model.func(f"{PRIM}:_augment_expression_dataclass")
     loc = m.loc(fn)
+    _marker_owned(ctx, model, fn)
     for nf in (0, 1, 2, 3):
         inst = instantiate(model, nf)
         tag = f"T/template/n={nf}"
